@@ -666,6 +666,11 @@ func writeEvidence(prop, tier string, seed uint64, info propInfo, agg *stats, se
 	}
 	b, _ := json.MarshalIndent(ev, "", " ")
 	dir := filepath.Join(home(), "evidence")
+	if repo() != "/repo" {
+		// a run against another tree (sensitivity / seeded changes) must not
+		// overwrite the evidence of the real repository
+		dir = filepath.Join(home(), ".build", "evidence-other-tree")
+	}
 	os.MkdirAll(dir, 0o755)
 	name := prop + ".json"
 	if info.Level == "other" {
